@@ -514,6 +514,75 @@ class Body:
         return out
 
 
+def _remap(node, lmap, bmap):
+    """deep copy of a facts JSON node with locals and block indices renumbered"""
+    if isinstance(node, list):
+        return [_remap(x, lmap, bmap) for x in node]
+    if not isinstance(node, dict):
+        return node
+    if 'l' in node and isinstance(node.get('p'), list):        # a place
+        return {'l': lmap(node['l']), 'p': [({'i': lmap(e['i'])} if isinstance(e, dict) and 'i' in e else e) for e in node['p']]}
+    out = {}
+    for k, v in node.items():
+        if k in ('t', 'else', 'unwind') and isinstance(v, int) and not isinstance(v, bool) and 'k' in node:
+            out[k] = bmap(v)
+        elif k == 'vals' and 'k' in node:
+            out[k] = [[a, bmap(b)] for a, b in v]
+        else:
+            out[k] = _remap(v, lmap, bmap)
+    return out
+
+
+def inline_calls(body, select, rounds=2, limit=40):
+    """Body in which calls of same-crate functions chosen by select(call_site, callee_body) are replaced by the callee's
+    blocks (arguments assigned to fresh locals, `return` turned into an assignment of the destination and a jump to the
+    continuation). Private helpers extracted from a codec function thereby stay visible to the rules that read the
+    codec function. Closures defined in an inlined callee are recorded in .inlined_from for callers that follow children."""
+    import copy
+    prog = body.prog
+    raw = copy.deepcopy(body.raw)
+    inlined = []
+    n = 0
+    for _ in range(rounds):
+        cur = Body(prog, body.crate, raw)
+        todo = []
+        for cs in cur.calls(include_cleanup=False):
+            tgt = prog.bodies.get(body.crate + '::' + cs.callee)
+            if tgt is None or tgt.kind not in ('Fn', 'AssocFn') or tgt.id == body.id or tgt.id in inlined and False:
+                continue
+            if len(cs.t['args']) != tgt.argc or cs.t.get('t') is None:
+                continue
+            if tgt.id == body.id or not select(cs, tgt):
+                continue
+            todo.append((cs.bb, tgt))
+        if not todo:
+            break
+        for bi, tgt in todo:
+            if n >= limit:
+                break
+            n += 1
+            t = raw['bbs'][bi]['t']
+            base_l, base_b = len(raw['locals']), len(raw['bbs'])
+            raw['locals'].extend(copy.deepcopy(tgt.raw['locals']))
+            lmap = lambda l, base_l=base_l: l + base_l
+            bmap = lambda b, base_b=base_b: b + base_b
+            cont, dest, ln = t['t'], t['dest'], t.get('ln')
+            for cb in tgt.raw['bbs']:
+                nb = _remap(cb, lmap, bmap)
+                if nb['t']['k'] == 'return' and not nb['t'].get('cdrop'):
+                    nb['st'] = list(nb['st']) + [{'p': copy.deepcopy(dest), 'r': {'k': 'use', 'o': {'mv': {'l': base_l, 'p': []}}}, 'ln': ln}]
+                    nb['t'] = {'k': 'goto', 't': cont, 'ln': ln, 'mac': ''}
+                raw['bbs'].append(nb)
+            blk = raw['bbs'][bi]
+            for k, a in enumerate(t['args']):
+                blk['st'].append({'p': {'l': base_l + 1 + k, 'p': []}, 'r': {'k': 'use', 'o': copy.deepcopy(a)}, 'ln': ln})
+            blk['t'] = {'k': 'goto', 't': base_b, 'ln': ln, 'mac': ''}
+            inlined.append(tgt.id)
+    out = Body(prog, body.crate, raw)
+    out.inlined_from = inlined
+    return out
+
+
 def callee_id(fn, local_crate):
     """Canonical id of a callee: resolved instance when available, else the declared item.
     Future::poll keeps its declared name (it resolves to the anonymous coroutine body)."""
